@@ -42,7 +42,7 @@ func (p *Program) fvState() *funcValState {
 					continue
 				}
 				for _, t := range p.funcValues(cc.Value, 0, false) {
-					st.dynSites[t] = append(st.dynSites[t], callSite{fn, ins})
+					st.dynSites[t] = append(st.dynSites[t], callSite{caller: fn, instr: ins})
 				}
 			}
 		}
@@ -101,6 +101,35 @@ func (p *Program) sliceTableFuncs(g *ssa.Global) []*ssa.Function {
 	return out
 }
 
+// returnedFuncs: the functions result idx of the static repository callee of c may
+// denote; nil unless every return resolves.
+func (p *Program) returnedFuncs(c *ssa.Call, idx, depth int, params bool) []*ssa.Function {
+	g := c.Call.StaticCallee()
+	if g == nil || g.Blocks == nil || !p.inRepo(g) {
+		return nil
+	}
+	var out []*ssa.Function
+	for _, b := range g.Blocks {
+		if isRecoverBlock(b) {
+			continue
+		}
+		ret, ok := b.Instrs[len(b.Instrs)-1].(*ssa.Return)
+		if !ok || idx >= len(ret.Results) {
+			continue
+		}
+		v := retValue(ret, idx)
+		if isNilConst(v) {
+			continue
+		}
+		fs := p.funcValues(v, depth+1, params)
+		if len(fs) == 0 {
+			return nil
+		}
+		out = append(out, fs...)
+	}
+	return out
+}
+
 func isFuncType(t types.Type) bool {
 	_, ok := t.Underlying().(*types.Signature)
 	return ok
@@ -126,7 +155,13 @@ func (p *Program) funcValues(v ssa.Value, depth int, params bool) []*ssa.Functio
 			out = append(out, p.funcValues(e, depth+1, params)...)
 		}
 		return out
+	case *ssa.Call:
+		// the function a helper of the repository returns (unlock := lockAll(); defer unlock())
+		return p.returnedFuncs(x, 0, depth, params)
 	case *ssa.Extract:
+		if c, ok := x.Tuple.(*ssa.Call); ok {
+			return p.returnedFuncs(c, x.Index, depth, params)
+		}
 		if g := dispatchTable(x); g != nil {
 			var out []*ssa.Function
 			for _, e := range p.tableFuncs(g) {
@@ -364,7 +399,7 @@ func (p *Program) CallSitesOf(fn *ssa.Function) []callSite {
 				}
 				for _, t := range p.funcValues(cc.Value, 0, true) {
 					if t == fn {
-						out = append(out, callSite{g, ins})
+						out = append(out, callSite{caller: g, instr: ins})
 					}
 				}
 			}
